@@ -1,7 +1,7 @@
 //! C15 (RPC half): the real `rpc::Service` / `Server::serve` / `Client::call` through the hook
 //! `zksync_consensus_network::verif::rpc`, under `ctx::ManualClock`.
 //!
-//! input: {"mode":"pair"|"flood"|"withhold", "n":1|2|5 (INFLIGHT), "rs":["burst","refresh_ns"] server rate,
+//! input: {"mode":"pair"|"flood"|"withhold"|"idle", "n":1|2|5 (INFLIGHT), "rs":["burst","refresh_ns"] server rate,
 //!         "rc":[..] client rate (pair), "tasks":k client tasks (pair), "hold":"ns" handler hold time,
 //!         "rounds":r (raw peer), "warm":["ns"...] (withhold: advances before the requests are sent),
 //!         "advs":["ns"...]}
@@ -10,6 +10,8 @@
 //!            CLOSE) on every stream id, never waiting for the server.
 //!  withhold: the raw peer first only OPENs every stream, lets the clock run (`warm`), and only then sends
 //!            a request on every stream at once, followed by the flood.
+//!  idle    : the raw peer sends only the mux handshake, idles for `warm` (the server's streams sit in the OPEN
+//!            handshake holding their permits), then answers every OPEN and floods requests at once.
 //! The clock only moves by the scripted advances; before each one the runtime is drained (bounded).
 //! output: {"events":[[+1|-1,"<ns>"]...] (handler entered / left, from HandlerLog), "done":["<ns>"...]
 //!          (client call completions), "status":[..]}
@@ -240,9 +242,13 @@ async fn run_case(c: &Value) -> Value {
             let hs = encode_handshake(&[(PING_CAP, n as u32)], &[]);
             let mut bytes = (hs.len() as u32).to_le_bytes().to_vec();
             bytes.extend_from_slice(&hs);
-            if mode == "withhold" {
-                for id in 0..n as u16 {
-                    bytes.extend_from_slice(&open_frame(id));
+            if mode == "withhold" || mode == "idle" {
+                // withhold: every stream is OPENed now, its request comes after `warm`;
+                // idle: the peer sends nothing but the handshake until `warm` has passed.
+                if mode == "withhold" {
+                    for id in 0..n as u16 {
+                        bytes.extend_from_slice(&open_frame(id));
+                    }
                 }
                 rawp.write_all(&bytes).await.unwrap();
                 bytes.clear();
@@ -252,8 +258,10 @@ async fn run_case(c: &Value) -> Value {
                     activity.fetch_add(1, Ordering::SeqCst);
                 }
                 ok = ok && settle(&activity, &log2).await;
-                for id in 0..n as u16 {
-                    bytes.extend_from_slice(&request_frames(id, 7));
+                if mode == "withhold" {
+                    for id in 0..n as u16 {
+                        bytes.extend_from_slice(&request_frames(id, 7));
+                    }
                 }
             }
             for r in 0..rounds {
